@@ -8,7 +8,7 @@
 (* State space: x runs over all 65 536 halves (in blocks, so that TLC workers  *)
 (* share the work); inside a state the two-operand laws quantify over the      *)
 (* constant sequence YS of second operands.                                    *)
-EXTENDS Half
+EXTENDS HalfTrans
 
 CONSTANTS YS,         \* sequence of halves used as second operands
           Stride      \* sampling of x in the two-operand laws (1 = all halves)
@@ -288,9 +288,70 @@ Laws08 ==
     /\ \A e \in {-37, -25, -14} : RoundPackMonotone(x, e)
     /\ (Sel(x) => \A e \in -40..7 : RoundPackMonotone(x, e))
 
+(* ---- the ball arithmetic and the kernels of the real functions (HalfReal.tla, HalfTrans.tla) ------------ *)
+(* two balls that enclose the same real number overlap *)
+BOverlap(a, b) == LET d == BSub(a, b) IN NCmp(d.m, NFromInt(d.r)) <= 0
+DecidedAs(R, v) == LET d == Decide(R) IN ~d.und /\ d.lo = v /\ d.hi = v
+
+(* constants and primitives, each against a second route *)
+RealConstLaws(n) ==
+    /\ BOverlap(BMulSmall(AtanEighth(8, n), 4), Pi(n))                         \* the table recursion reaches atan 1 = pi/4 (Machin)
+    /\ NCmp(NSub(Pi(n).m, NFromInt(Pi(n).r)), BRat(314159, 100000, n).m) > 0   \* 3.14159 < pi < 3.14160
+    /\ NCmp(NAdd(Pi(n).m, NFromInt(Pi(n).r)), BRat(314160, 100000, n).m) < 0
+    /\ Pi(n).r <= 8 /\ Ln2(n).r <= 8 /\ Ln10(n).r <= 8 /\ TwoOverPiX(n).r <= 8
+    /\ BOverlap(ExpSeries(Ln2(n), n), BInt(2, n))                              \* e^(log 2) = 2
+    /\ BOverlap(LnNat(10, n), Ln10(n)) /\ BOverlap(LnNat(1000, n), BMulSmall(Ln10(n), 3))
+    /\ BOverlap(LnNat(1024, n), BMulSmall(Ln2(n), 10))
+    /\ BOverlap(BMul(BRecip(BInt(3, n), n), BInt(3, n), n), BOne(n))
+    /\ BOverlap(BMul(InvLn2(n), Ln2(n), n), BOne(n)) /\ BOverlap(BMul(InvLn10(n), Ln10(n), n), BOne(n))
+    /\ BOverlap(BMul(BShr(TwoOverPiX(n), 1), PiAt(n + 1), n + 1), BOne(n + 1))
+    /\ (LET s == BSqrt(BInt(2, n), n) IN BOverlap(BMul(s, s, n), BInt(2, n)))
+    /\ (LET s == BSqrt(BRat(1, 1000, n), n) IN BOverlap(BMulSmall(BMul(s, s, n), 1000), BOne(n)))
+    /\ BOverlap(LnBall(BRat(5, 2, n), n), BSub(LnNat(5, n), Ln2(n)))
+    /\ BOverlap(AtanBall01(BRat(3, 7, n), n), AtanRatio(3, 7, n))
+    \* known values: atan 1 = pi/4, asin 1 = acos 0 = pi/2, acos -1 = pi round to the constants Half.tla states (PiBounds)
+    /\ DecidedAs(Eval("atan", One, n), PiOver4H) /\ DecidedAs(Eval("asin", One, n), PiOver2H) /\ DecidedAs(Eval("asin", Neg(One), n), Neg(PiOver2H))
+    /\ DecidedAs(Eval("acos", PosZero, n), PiOver2H) /\ DecidedAs(Eval("acos", Neg(One), n), PiH)
+    \* results that are exactly representable, reached through the general kernels: 2^3, log2 8, log10 1000, e^0+, cosh of the least subnormal
+    /\ DecidedAs(Exp2Eval(FromInt(3), n), FromInt(8)) /\ DecidedAs(Exp2Eval(FromInt(-3), n), RoundPack(0, 1, -3, FALSE))
+    /\ DecidedAs(LogEval("log2", FromInt(8), n), FromInt(3)) /\ DecidedAs(LogEval("log10", FromInt(1000), n), FromInt(3))
+    /\ DecidedAs(Eval("cosh", 1, n), One) /\ DecidedAs(Eval("exp", 1, n), One) /\ DecidedAs(Eval("sin", 1, n), 1) /\ DecidedAs(Eval("tanh", 1, n), 1)
+ASSUME RealConstLaws(NLo)
+ASSUME RealConstLaws(NHi)
+
+RealFns == << "exp", "exp2", "expm1", "log", "log10", "log2", "log1p", "sin", "cos", "tan", "asin", "acos", "atan", "sinh", "cosh", "tanh", "asinh", "acosh", "atanh" >>
+OddFns  == {"expm1_no", "sin", "tan", "asin", "atan", "sinh", "tanh", "asinh", "atanh"}
+EvenFns == {"cos", "cosh"}
+IncreasingFns == {"exp", "exp2", "expm1", "log", "log10", "log2", "log1p", "asin", "atan", "sinh", "tanh", "asinh", "acosh", "atanh"}
+InDomain(f, h) == Special1(f, h).k = "any"
+OrdLo(d) == Min(Ord(d.lo), Ord(d.hi))
+OrdHi(d) == Max(Ord(d.lo), Ord(d.hi))
+
+(* for one function per x (rotating): the 70-bit enclosure decides up to two adjacent halves, contains what the 42-bit one decided, *)
+(* respects the function's symmetry and monotonicity; sin^2 + cos^2 encloses 1                                                  *)
+RealLaw(h) ==
+    LET f == RealFns[((h \div 8) % Len(RealFns)) + 1] IN
+    InDomain(f, h) =>
+        LET d1 == Decide(Eval(f, h, NLo))
+            d2 == Decide(Eval(f, h, NHi))
+            up == NextUp(h)
+        IN  /\ ~d2.und /\ OrdHi(d2) - OrdLo(d2) <= 1
+            /\ (Decided(d1) => OrdLo(d2) <= Ord(d1.lo) /\ Ord(d1.lo) <= OrdHi(d2))
+            /\ (f \in OddFns /\ InDomain(f, Neg(h)) => LET dn == Decide(Eval(f, Neg(h), NHi)) IN dn.lo = Neg(d2.lo) /\ dn.hi = Neg(d2.hi))
+            /\ (f \in EvenFns => Decide(Eval(f, Neg(h), NHi)) = d2)
+            /\ (f \in IncreasingFns /\ InDomain(f, up) => OrdLo(d2) <= OrdHi(Decide(Eval(f, up, NHi))))
+            /\ (f = "acos" /\ InDomain(f, up) => OrdHi(d2) >= OrdLo(Decide(Eval(f, up, NHi))))
+            /\ (f = "sin" => LET sn == Eval("sin", h, NHi)  cs == Eval("cos", h, NHi) IN
+                              sn.e = -14 * NHi /\ cs.e = -14 * NHi => BOverlap(BAdd(BMul(sn.b, sn.b, NHi), BMul(cs.b, cs.b, NHi)), BOne(NHi)))
+            /\ (f = "cosh" => LET c == Eval("cosh", h, NHi)  sh == Eval("sinh", h, NHi) IN          \* cosh^2 - sinh^2 = 1 where both are moderate
+                              c.t = "ball" /\ sh.t = "ball" /\ c.e = sh.e /\ c.e + 14 * NHi \in 0..3 =>
+                                  BOverlap(BSub(BMul(c.b, c.b, NHi), BMul(sh.b, sh.b, NHi)), BScale2(BOne(NHi), -2 * (c.e + 14 * NHi))))
+RSel(h) == h % (8 * Stride) = 5
+
 (* C09: rounding to integers, frexp/ldexp/modf/ilogb/logb/nextafter, fmod family, fdim/fmax/fmin, hypot, exact points *)
 Laws09 ==
     /\ Unary09(x)
+    /\ (RSel(x) => RealLaw(x))
     /\ (Sel(x) => \A i \in 1..Len(YS) : ModLaws(x, YS[i]) /\ MinMaxHypotLaws(x, YS[i]))
 
 =============================================================================
